@@ -250,5 +250,7 @@ pub fn check_case(case: &Value) -> Vec<Violation> {
 }
 
 pub fn workers() -> Vec<(&'static str, WorkerFn)> {
-    vec![("c19_exec", worker_exec as iso::WorkerFn)]
+    let mut v = vec![("c19_exec", worker_exec as iso::WorkerFn)];
+    v.extend(c19_confine::workers());
+    v
 }
